@@ -357,6 +357,11 @@ static int gnutls_verify_sha_pem(jwt_t *jwt, const char *head,
 	case JWT_ALG_ES256K:
 	case JWT_ALG_ES384:
 	case JWT_ALG_ES512:
+		/* The size of R||S is fixed by the alg (RFC 7518 3.4) */
+		if (sig_len != (jwt->alg == JWT_ALG_ES384 ? 96 :
+				jwt->alg == JWT_ALG_ES512 ? 132 : 64))
+			VERIFY_ERROR("ECDSA mismatch with sig len");
+
 		/* XXX Gotta be a better way. */
 		if (sig_len == 64) {
 			r.size = 32;
